@@ -18,7 +18,7 @@ import (
 // alignment, declared widths driving the padding of single-line items, and
 // declared heights as lower bounds on the row's line count.
 
-const c04Fam = gen.FAscii | gen.FWide | gen.FCombining | gen.FZero | gen.FEmoji | gen.FSGR
+const c04Fam = gen.FAscii | gen.FWide | gen.FCombining | gen.FZero | gen.FEmoji | gen.FSGR | gen.FEdge
 
 func c04Item(r *gen.R) gen.ItemSpec {
 	switch r.Intn(10) {
